@@ -90,6 +90,58 @@ def cfg_paths(g, limit=256):
     return out
 
 
+def cfg_paths_unrolled(g, limit=512):
+    """entry->exit paths in a CFG with loops: every back edge is taken at most once per path (each loop body is seen
+    zero times and once), as lists of (block, taken successor index)"""
+    back = set(g.back_edges())
+    out = []
+
+    def go(b, acc, used):
+        if len(out) > limit:
+            return
+        blk = g.blocks[b]
+        if b == g.exit:
+            out.append(list(acc))
+            return
+        succ = [(i, s) for i, s in enumerate(blk.succ) if s is not None]
+        if not succ:
+            if not blk.noret:
+                out.append(list(acc) + [(blk, None)])
+            return
+        for i, s in succ:
+            e = (b, s)
+            if e in back:
+                if e in used:
+                    continue
+                go(s, acc + [(blk, i if len(blk.succ) == 2 else None)], used | {e})
+            else:
+                go(s, acc + [(blk, i if len(blk.succ) == 2 else None)], used)
+    go(g.entry, [], frozenset())
+    return out
+
+
+def loop_blocks(g):
+    """ids of all blocks inside a natural loop"""
+    preds = g.preds()
+    loop = set()
+    for (t, h) in g.back_edges():
+        body = {h}
+        work = [t]
+        while work:
+            x = work.pop()
+            if x in body:
+                continue
+            body.add(x)
+            work.extend(preds[x])
+        loop |= body
+    return loop
+
+
+WIDTH64 = re.compile(r'^std::atomic<((un)?signed |)(long long|long|__int128)( int)?>$|'
+                     r'^std::atomic<(size_t|std::size_t|unsigned long long|unsigned long|std::int64_t|std::uint64_t|int64_t|uint64_t|'
+                     r'std::ptrdiff_t|ptrdiff_t|std::intptr_t|std::uintptr_t)>$')
+
+
 def int_eval(tu, e, env, depth=0):
     """evaluate an integer/boolean expression over `env` = {node id of the RMW call: value, var decl id: value}"""
     e = tu.strip(e)
